@@ -269,9 +269,15 @@ def main(argv=None):
       return ('dead', viols, last, errs, begun, err[-2000:])
     return ('ok', viols, last, errs, begun, err[-2000:])
 
+  retries = 0
   for w, p in procs.items():
     r = collect(w, p, True)
-    if r[0] == 'dead':
+    if r[0] == 'dead' and (r[1] or any(x[1] for x in results.values()) or retries >= 2):
+      # no second chance when a violation has been reported already (the verdict is settled: a worker that hangs inside the code
+      # under test - a post that spins or blocks for good - would only hang again), nor for more than two workers of one run
+      inconclusive.append('worker %d died/timed out (case in flight: %s) stderr: %s' % (w, r[4], r[5][-400:]))
+    elif r[0] == 'dead':
+      retries += 1
       # retry once in a fresh process with the same seed
       p2 = spawn(pid, tier, a.seed, w, nw, budget)
       r2 = collect(w, p2, False)
